@@ -320,7 +320,15 @@ def _publish_then_delete(fns, sel, title, err_must_be_clean):
     pok, perr, _ = ok_err(fn, pub[0], "upgrade_version")
     dels = calls(fn, DELETE)
     ok_ret, err_ret = ret_blocks(fn)
+    # a mark_as_deleted inside the closure handed to upgrade_version runs *before* the version is persisted
+    early_marks = []
+    for cf in closure_fns(fns, pub[0]):
+        if fn_calls_matching(fns, cf, r"(Table|BlobFile)::mark_as_deleted$", 1) or \
+                any("mark_as_deleted" in st or (bb.kind == "call" and "mark_as_deleted" in (bb.args or "")) for bb in live_blocks(cf) for st in (bb.stmts or [""])):
+            early_marks.append(cf)
     a.var("published")
+    a.event("call:upgrade_version(closure flags files for deletion)", [pub[0].idx] if early_marks else [])
+    a.require("call:upgrade_version(closure flags files for deletion)", "false", "tables / blob files are marked deleted inside the closure that builds the next version, i.e. before that version is persisted: if persisting fails the operation returns Err but the files of the still-current version are unlinked when the tree is closed")
     a.event("call:upgrade_version", [pub[0].idx])
     a.event("ok:upgrade_version", [pok]).on("ok:upgrade_version", "published", True)
     a.event("call:mark_as_deleted", [b.idx for b in dels])
@@ -334,7 +342,7 @@ def _publish_then_delete(fns, sel, title, err_must_be_clean):
 def standard_finish(fns):
     a, dels = _publish_then_delete(fns, r"flavour\.rs[^>]*>::finish\(_1: Box<StandardCompaction>",
                                    "O5.3a StandardCompaction::finish: obsolete tables marked deleted only after the new version is published", False)
-    if not dels:
+    if not dels and not a.events.get("call:upgrade_version(closure flags files for deletion)"):
         raise MirError("StandardCompaction::finish: no mark_as_deleted call found")
     return [a]
 
@@ -342,7 +350,7 @@ def standard_finish(fns):
 def relocating_finish(fns):
     a, dels = _publish_then_delete(fns, r"flavour\.rs[^>]*>::finish\(_1: Box<RelocatingCompaction>",
                                    "O5.3b RelocatingCompaction::finish: obsolete tables / blob files marked deleted only after publish", False)
-    if not dels:
+    if not dels and not a.events.get("call:upgrade_version(closure flags files for deletion)"):
         raise MirError("RelocatingCompaction::finish: no mark_as_deleted call found")
     return [a]
 
@@ -350,7 +358,7 @@ def relocating_finish(fns):
 def drop_tables(fns):
     a, dels = _publish_then_delete(fns, r"^fn drop_tables\(",
                                    "O5.3c drop_tables: tables / blob files marked deleted only after the version without them is published", False)
-    if not dels:
+    if not dels and not a.events.get("call:upgrade_version(closure flags files for deletion)"):
         raise MirError("drop_tables: no mark_as_deleted call found")
     return [a]
 
@@ -1936,7 +1944,12 @@ def mark_deleted_census(fns):
     early = r"src/version/|src/table/|src/vlog/|src/memtable|src/range|src/merge|src/mvcc_stream|src/run_|::choose(::|$)|src/compaction/stream\.rs|src/compaction/(leveled|fifo|major|drop_range|pulldown|movedown|maintenance)"
     for f in users + stores:
         allowed = any(re.search(rx, f.name) for rx in MARK_SITES)
-        if not allowed and not re.search(early, f.name + " " + (f.closure_span() or "")):
+        in_upgrade_closure = bool(f.closure_span()) and any(
+            b.kind == "call" and re.search(r"SuperVersions::upgrade_version", b.callee) and f.closure_span() in b.callee
+            for g in fns if not getattr(g, "skip", False) for b in g.blocks.values() if not b.cleanup)
+        if in_upgrade_closure:
+            allowed = False
+        if not allowed and not in_upgrade_closure and not re.search(early, f.name + " " + (f.closure_span() or "")):
             raise MirError("mark_as_deleted is used by %s, which is neither a known publish-then-delete site nor a function that runs before publication by construction - cannot be judged" % f.name[-80:])
         a = Automaton(f, "O16.5 %s may flag files for deletion: it is one of the publish-then-delete sites" % f.name[-60:])
         a.glue = [("function is in the list of publish-then-delete sites (each decided by O5.3 / O16.4)", "proved" if allowed else "refuted", 0.0)]
@@ -1991,12 +2004,26 @@ def hash_index_guard(fns):
         if b.kind != "switch":
             continue
         for st in b.stmts:
-            m = re.match(r"^(_\d+) = (Le|Lt)\(copy %s, const (.*)\)$" % re.escape(len_local), st)
+            m = re.match(r"^(_\d+) = (Le|Lt)\((?:copy|move) (_\d+), const (.*)\)$", st)
             if m and m.group(1) in b.args:
-                c = m.group(3).strip()
+                x = m.group(3)
+                lterm = None
+                if x == len_local:
+                    lterm = "len"
+                else:
+                    prod = [c2 for c2 in live_blocks(fn) if c2.kind == "call" and c2.dest == x]
+                    if len(prod) == 1 and re.search(r"core::num::<impl usize>::(saturating_sub|wrapping_sub)$", prod[0].callee):
+                        pa = [y.strip() for y in mir.split_top(prod[0].args)]
+                        km = re.match(r"^const (\d+)_usize$", pa[1])
+                        if RE_LOCAL.findall(pa[0]) == [len_local] and km:
+                            k = int(km.group(1))
+                            lterm = "(ite (bvuge len (_ bv%d 64)) (bvsub len (_ bv%d 64)) (_ bv0 64))" % (k, k) if "saturating" in prod[0].callee else "(bvsub len (_ bv%d 64))" % k
+                if lterm is None:
+                    continue
+                c = m.group(4).strip()
                 mm = re.match(r"^(\d+)_usize$", c)
                 val = int(mm.group(1)) if mm else _const_value("table/block/hash_index/builder.rs", c.split("::")[-1])
-                guard_terms.append("(%s len (_ bv%d 64))" % ("bvule" if m.group(2) == "Le" else "bvult", val))
+                guard_terms.append("(%s %s (_ bv%d 64))" % ("bvule" if m.group(2) == "Le" else "bvult", lterm, val))
                 t, f = bool_edges(fn, b, m.group(1))
                 guard_edges.append(edge_block(fn, b.idx, t))
     # `u8::try_from(len).is_ok()` style guard
@@ -2200,3 +2227,194 @@ def flush_separation(fns):
 
 
 SPECS["O8.4"] = [flush_separation]
+
+
+# ---------------------------------------------------------------------------------------------
+# C03 O3.7: every data block a table iterator opens is clamped by both range bounds before an item is taken from it
+# ---------------------------------------------------------------------------------------------
+
+def _clamp_spec(fns, sel, title, pull_re):
+    fn = mir.find(fns, sel)
+    a = Automaton(fn, title)
+    mk = calls(fn, r"(^|::)create_data_block_reader$")
+    if len(mk) != 1:
+        raise MirError("%s: expected exactly one create_data_block_reader call, found %d" % (title[:20], len(mk)))
+    mk = mk[0]
+    rl = mk.dest
+    refs = set()
+    for b in live_blocks(fn):
+        for st in b.stmts:
+            m = re.match(r"^(_\d+) = &mut %s$" % re.escape(rl), st)
+            if m:
+                refs.add(m.group(1))
+
+    def on_reader(b):
+        return bool(set(RE_LOCAL.findall(b.args or "")) & refs)
+    lo = [b for b in calls(fn, r"OwnedDataBlockIter::seek_lower_bound$") if on_reader(b)]
+    hi = [b for b in calls(fn, r"OwnedDataBlockIter::seek_upper_bound$") if on_reader(b)]
+    pulls = [b for b in calls(fn, pull_re) if on_reader(b)]
+    if not pulls:
+        raise MirError("no item is pulled from the freshly created block reader")
+
+    def none_edges(seeks, what):
+        out = []
+        p = preds(fn)
+        for sk in seeks:
+            # the switch that guards the seek: walk back over single-predecessor blocks
+            cur = sk.idx
+            for _ in range(4):
+                ps = [x for x in p.get(cur, ()) if not fn.blocks[x].cleanup]
+                if len(ps) != 1:
+                    break
+                cur = ps[0]
+                sw = fn.blocks[cur]
+                if sw.kind == "switch" and any("discriminant(" in st for st in sw.stmts):
+                    for v, t in list(sw.switch):
+                        if v == "0":
+                            out.append(edge_block(fn, sw.idx, t))
+                    break
+        if seeks and not out:
+            raise MirError("%s: the Option test guarding the seek was not found" % what)
+        return out
+    lo_none, hi_none = none_edges(lo, "lower bound"), none_edges(hi, "upper bound")
+    a.var("lo").var("hi")
+    a.event("call:create_data_block_reader", [mk.idx]).on("call:create_data_block_reader", "lo", False).on("call:create_data_block_reader", "hi", False)
+    a.event("call:seek_lower_bound", [b.idx for b in lo]).on("call:seek_lower_bound", "lo", True)
+    a.event("edge:no lower bound", lo_none).on("edge:no lower bound", "lo", True)
+    a.event("call:seek_upper_bound", [b.idx for b in hi]).on("call:seek_upper_bound", "hi", True)
+    a.event("edge:no upper bound", hi_none).on("edge:no upper bound", "hi", True)
+    a.event("call:first item taken from the new block", [b.idx for b in pulls])
+    a.require("call:first item taken from the new block", "(and {lo} {hi})",
+              "an item is taken from a freshly opened data block that was not clamped by the range's lower and upper bound: entries outside the bounds (or shadowed versions of a bound key that straddles blocks) are yielded")
+    return a
+
+
+def block_clamping(fns):
+    return [_clamp_spec(fns, r"src/table/iter\.rs[^>]*>::next\(_1: &mut table::iter::Iter\)", "O3.7a table::Iter::next clamps every block it opens by both bounds before taking an item",
+                        r"<OwnedDataBlockIter as Iterator>::next$"),
+            _clamp_spec(fns, r"src/table/iter\.rs[^>]*>::next_back\(_1: &mut table::iter::Iter\)", "O3.7b table::Iter::next_back clamps every block it opens by both bounds before taking an item",
+                        r"<OwnedDataBlockIter as DoubleEndedIterator>::next_back$")]
+
+
+SPECS["O3.7"] = [block_clamping]
+
+
+# ---------------------------------------------------------------------------------------------
+# C05 O5.4: a new version never re-uses the id of the version it replaces (its file would be rewritten in place)
+# ---------------------------------------------------------------------------------------------
+
+def fresh_version_ids(fns):
+    """persist_version writes `v{id}`; `current` names the live version's file. If a version builder produced a version
+    with the id of its predecessor, the live file would be truncated and rewritten before `current` switches: a
+    crash in between leaves `current` pointing at a torn file. Every builder must produce id = old id + 1."""
+    out = []
+    names = struct_fields(SRC_ROOT, "src/version/mod.rs", "VersionInner")
+    if not names or names[0] != "id":
+        raise MirError("VersionInner.id is not field 0: %s" % names)
+    for nm in ("with_new_l0_run", "with_dropped", "with_merge", "with_moved"):
+        fn = mir.find(fns, r"src/version/mod\.rs[^>]*>::%s\(" % nm)
+        a = Automaton(fn, "O5.4 Version::%s gives the new version the id old + 1" % nm)
+        ctx = glue.Ctx(fn)
+        aggs = [(b, st) for b in live_blocks(fn) for st in b.stmts if re.search(r"= VersionInner \{ id: (copy|move) (_\d+),", st)]
+        if len(aggs) != 1:
+            raise MirError("%s: expected one VersionInner aggregate, found %d" % (nm, len(aggs)))
+        b, st = aggs[0]
+        idl = re.search(r"VersionInner \{ id: (copy|move) (_\d+),", st).group(2)
+        t, w = glue.term(ctx, idl)
+        # the old id is the free variable that stands for field .0 of *self
+        frees = [v for (n, ww), v in ctx.free.items() if ww == 64]
+        ok = False
+        for fv in frees:
+            v = glue.equal_for_all(ctx, t, "(bvadd %s (_ bv1 64))" % fv)
+            if v[0] == "proved" and re.search(r"_0__u64|\.0_", fv.replace(" ", "")) is not None or (v[0] == "proved" and "0" in fv):
+                ok = True
+        a.glue = [("new id == (self.id) + 1 as 64-bit terms", "proved" if ok else "refuted", 0.0)]
+        a.var("x")
+        a.event("stmt:VersionInner built with an id that is not old + 1", [] if ok else [b.idx])
+        a.require("stmt:VersionInner built with an id that is not old + 1", "false", "Version::%s re-uses / mis-computes the version id: persist_version would rewrite the live version file in place (torn on a crash) or collide with another version file" % nm)
+        out.append(a)
+    return out
+
+
+SPECS["O5.4"] = [fresh_version_ids, xspecs.clear_version_ids]
+
+
+# ---------------------------------------------------------------------------------------------
+# C02 O2.3d: version changes are stamped through upgrade_version (fresh seqno), never with a seqno of the caller's choosing
+# ---------------------------------------------------------------------------------------------
+
+def version_stamp_census(fns):
+    """A snapshot S resolves to the newest super version with seqno < S. That keeps a held snapshot on the version it
+    was taken on only if every later version change carries a seqno drawn *after* the snapshot - `upgrade_version`
+    does that (O2.3b). `upgrade_version_with_seqno` lets the caller choose; only bulk ingestion may (it publishes at
+    the global seqno it drew for its tables, decided by O14.2)."""
+    allowed = [r"super_version\.rs[^>]*>::upgrade_version$", r"src/(blob_)?tree/ingest\.rs[^>]*>::finish$"]
+    publishers = r"register_tables|flavour\.rs[^>]*>::finish|(^|::)drop_tables|move_tables|::clear$|::clear::|merge_tables|do_compaction|rotate_memtable|::flush"
+    out, users = [], []
+    for f in fns:
+        if getattr(f, "skip", False) or "tests::" in f.name or "::tests" in f.name:
+            continue
+        cs = [b for b in f.blocks.values() if not b.cleanup and b.kind == "call" and re.search(r"SuperVersions::upgrade_version_with_seqno::<", b.callee)]
+        if cs:
+            users.append((f, cs))
+    if not any(re.search(allowed[0], f.name) for f, _ in users):
+        raise MirError("upgrade_version no longer goes through upgrade_version_with_seqno (pattern drift)")
+    for f, cs in users:
+        ok = any(re.search(rx, f.name) for rx in allowed)
+        if not ok and not re.search(publishers, f.name):
+            raise MirError("upgrade_version_with_seqno is called by %s, which is neither bulk ingestion nor a known publisher - cannot be judged" % f.name[-70:])
+        a = Automaton(f, "O2.3d %s may choose the seqno of its version change" % f.name[-60:])
+        a.glue = [("caller is upgrade_version itself or bulk ingestion's finish", "proved" if ok else "refuted", 0.0)]
+        a.var("x")
+        a.event("call:upgrade_version_with_seqno by a publisher that must draw a fresh seqno", [] if ok else [cs[0].idx])
+        a.require("call:upgrade_version_with_seqno by a publisher that must draw a fresh seqno", "false",
+                  "%s publishes its version change with a seqno of its own choosing instead of a fresh one: a snapshot taken before the change can resolve to the new version (and miss what the change garbage-collected)" % f.name.split("::")[-1])
+        out.append(a)
+    return out
+
+
+SPECS["O2.3d"] = [version_stamp_census]
+
+
+# ---------------------------------------------------------------------------------------------
+# C20 O20.6: blob file recovery always scans the blobs folder (orphans are only found by listing it)
+# ---------------------------------------------------------------------------------------------
+
+def recovery_scans_folder(fns):
+    fn = mir.find(fns, r"^fn (vlog::)?recover_blob_files\(")
+    a = Automaton(fn, "O20.6 vlog::recover_blob_files lists the blobs folder before it returns Ok (unless the folder does not exist)")
+    te = one(calls(fn, r"Path::try_exists$"), "folder.try_exists()")
+    rd = calls(fn, r"(^|::)read_dir::<")
+    if not rd:
+        raise MirError("recover_blob_files: no read_dir call")
+    tok, terr, _ = ok_err(fn, te, "try_exists")
+    # the bool carried by Continue: its false edge = folder absent
+    sw = fn.blocks[tok]
+    absent = None
+    if sw.kind == "switch":
+        for st in sw.stmts:
+            m = re.match(r"^(_\d+) = copy \(\((_\d+) as Continue\)\.0: bool\)$", st)
+            if m and m.group(1) in sw.args:
+                t, f = bool_edges(fn, sw, m.group(1))
+                absent = edge_block(fn, sw.idx, f)
+    if absent is None:
+        # negated / combined condition: find the switch on the Continue bool anywhere after
+        for b in live_blocks(fn):
+            if b.kind == "switch":
+                for st in b.stmts:
+                    m = re.match(r"^(_\d+) = copy \(\((_\d+) as Continue\)\.0: bool\)$", st)
+                    if m and m.group(1) in b.args:
+                        t, f = bool_edges(fn, b, m.group(1))
+                        absent = edge_block(fn, b.idx, f)
+    if absent is None:
+        raise MirError("recover_blob_files: the test of try_exists' result was not found")
+    ok_ret, err_ret = ret_blocks(fn)
+    a.var("scanned").var("absent")
+    a.event("call:read_dir(blobs folder)", [b.idx for b in rd]).on("call:read_dir(blobs folder)", "scanned", True)
+    a.event("edge:folder does not exist", [absent]).on("edge:folder does not exist", "absent", True)
+    a.event("ret_ok", ok_ret)
+    a.require("ret_ok", "(or {scanned} {absent})", "recover_blob_files returns Ok without listing an existing blobs folder: blob files the recovered version does not name (left by a crash, or dead since the last version) are never found and never deleted")
+    return [a]
+
+
+SPECS["O20.6"] = [recovery_scans_folder]
